@@ -369,7 +369,7 @@ def shrink_witness(mod, sub_name: str, bucket: str, witness_case, tier: str, see
     from hypothesis import settings, HealthCheck, Phase
     sub = mod.SUBCHECKS[sub_name]
     t0 = time.time()
-    cap = 20.0 if tier == 'quick' else 240.0
+    cap = 20.0 if tier == 'quick' else 60.0
 
     if bucket.startswith('no_return|') or '|no_return|' in bucket:
         return witness_case, 'smallest collected witness (non-returning calls are not shrunk)'
